@@ -26,6 +26,11 @@ pub fn def() -> PropDef {
 const VARS: [&str; 7] = ["a", "b", "c", "d", "x", "y", "m"];
 const FUNS: [&str; 4] = ["g", "h", "k", "size"];
 
+pub fn gen_src(rng: &mut Rng) -> String {
+    let d = 1 + rng.below(6) as u32;
+    gen(rng, d)
+}
+
 fn gen(rng: &mut Rng, depth: u32) -> String {
     if depth == 0 || rng.chance(1, 5) {
         return match rng.below(6) {
